@@ -2,6 +2,9 @@
 """Regenerates MANIFEST.json from the table below (kept in one place so it stays valid)."""
 import json
 
+T = 'Lean 4 refinement / invariant proof over hand-written executable model; differential correspondence (db.dump / vh.dump line protocol); SQLite as oracle; constants translator'
+NOTE = "Trusted: Lean kernel (axioms propext, Classical.choice, Quot.sound only), Spec.* as the statement of SQLite's format, the correspondence harness and sdmodel code generation, SQLite 3.40.1 as oracle. "
+
 CLAIMED = {
     "C15": dict(
         text="Kernel-checked Lean 4 theorems: the model of decode_varint/encode_varint/decode_varint_in_reverse/"
@@ -9,11 +12,39 @@ CLAIMED = {
              "specification for every input (no size bound); model tied to /repo on every run by differential "
              "correspondence over all 1-2 byte strings, all width boundaries and random 64-bit values.",
         design="§9 C15",
-        note="Trusted: Lean kernel (axioms propext, Classical.choice, Quot.sound only), Spec.Varint/Spec.SerialType as the "
-             "statement of SQLite's encodings, the correspondence harness and sdmodel code generation; struct.unpack('>d') "
-             "and float division in int((st-12)/2) (exact below 2^53) are modelled, not verified.",
+        note=NOTE + "struct.unpack('>d') and float division in int((st-12)/2) (exact below 2^53) are modelled, not verified.",
         technique="Lean 4 refinement + round-trip proof over hand-written executable model; differential correspondence; constants translator",
     ),
+    "C16": dict(
+        text="Theorems for every page size >= 512 and every payload size: local payload split of table-leaf and index cells, "
+             "overflow page count and last-page fill equal SQLite's formulas; accepted overflow chains have exactly that shape "
+             "and reassemble the payload length; pointer-map plan equals SQLite's PTRMAP positions for every database size. "
+             "Tied to the real cell classes by exhaustive correspondence over payload sizes.",
+        design="§9 C16", note=NOTE + "usable size = page size (reserved bytes refused); float constants exact for accepted page sizes (checked).", technique=T),
+    "C17": dict(
+        text="Theorems: every reported database/WAL/frame/journal header field is the big-endian value at its offset; an accepted "
+             "database header satisfies the six format rules; every header SQLite writes is accepted; only the documented error "
+             "classes occur. Tied by correspondence over field perturbations and per-commit PRAGMA values of WAL histories.",
+        design="§9 C17", note=NOTE + "header difference classification across commits is modelled and tied by correspondence (its theorems are partial).", technique=T),
+    "C06": dict(
+        text="Theorems on the page-layout check: stable sort, telescoping identity, every SQLite-well-formed layout is accepted with "
+             "fragment total = header count, accepted layouts tile [content offset, page end) without overlap or gap, strict checking "
+             "is irrelevant on accepted pages, freeblock walk bounded and ascending. Page census tied by full-dump correspondence and "
+             "SQLite's dbstat / freelist_count / integrity_check.",
+        design="§9 C06", note=NOTE + "census theorem (each page classified exactly once) is partial: decided by correspondence + dbstat, not yet by a Lean theorem over ConsistentDb.", technique=T),
+    "C01": dict(
+        text="Full-pipeline executable model (Database.__init__, page/cell/record/overflow/tree parsing) compared section by section with "
+             "the implementation on SQLite-written databases over the whole configuration grid, rows compared with SQLite; theorems from "
+             "C15 (codecs), C16 (payload split, chain shape) and C06 (layout acceptance) cover the mechanisms the property names.",
+        design="§9 C01", note=NOTE + "partial: the end-to-end refinement theorem tree_rows over Spec.ConsistentDb is not proved; schema SQL parsing is outside the model.", technique=T),
+    "C14": dict(
+        text="Same model and correspondence as C01 for index and WITHOUT ROWID b-trees (leaf and interior cells), entries compared as "
+             "multisets with the entries SQLite holds; index payload arithmetic proved in C16.",
+        design="§9 C14", note=NOTE + "partial: no end-to-end Lean theorem over index b-trees yet.", technique=T),
+    "C13": dict(
+        text="Theorem strict_irrelevant (relaxed checking never changes an accepted layout) plus model/implementation correspondence under "
+             "every (store_in_memory, strict) combination; implementation compared pairwise over all 48 configurations and run twice.",
+        design="§9 C13", note=NOTE + "partial: cache_eq_fresh / entry_irrelevant are decided by the pairwise run, not by theorems.", technique=T),
 }
 
 ALL = ["C%02d" % i for i in range(1, 19)]
